@@ -41,6 +41,14 @@ def _is_prov_mismatch_reading(ev, state):
     return ev["res"].get("pcommit") != ev["req"].get("pc")
 
 
+def _collect_nontrivial(events):
+    for e in events:
+        if e["event"] in ("observe", "optic"):
+            trivial = e["res"].get("err") in ("InvalidWorldline", "UnsupportedFrameProjection") and not e["res"]["ok"]
+            if not trivial:
+                _NONTRIVIAL.add((e["event"], json.dumps(e["req"], sort_keys=True), e["fp0"]["rt"], e["fp0"]["pv"]))
+
+
 def _validate(ck, trace, name):
     """Runs ObserveTrace.tla on `trace`; returns (accepted, rejected_line or None).
     TLC exits 10 with 'Postcondition Accepted ... is false' on a rejected trace, which lib.tlc reports
@@ -72,11 +80,7 @@ def _validate(ck, trace, name):
 def _tv(ck, trace, name, seed, tier, mode):
     """Trace validation with triage of the first rejected event. Returns number of events accepted."""
     events = read_ndjson(trace)
-    for e in events:
-        if e["event"] in ("observe", "optic"):
-            trivial = e["res"].get("err") in ("InvalidWorldline", "UnsupportedFrameProjection") and not e["res"]["ok"]
-            if not trivial:
-                _NONTRIVIAL.add((e["event"], json.dumps(e["req"], sort_keys=True), e["fp0"]["rt"], e["fp0"]["pv"]))
+    _collect_nontrivial(events)
     ok, line = _validate(ck, trace, name)
     dropped = 0
     while not ok:
@@ -108,13 +112,13 @@ def _tv(ck, trace, name, seed, tier, mode):
 def run(tier, replay=None):
     ck = Check("C16", tier)
     binp = build_harness()
-    seed, modes = ck.seed, ["main", "probe"]
+    seed, modes, htier = ck.seed, ["main", "probe"], tier
     if replay:
         case = json.load(open(replay))["case"]
         if "invariant" in case:
             modes = []
         else:
-            seed, modes = case.get("seed", ck.seed), [case.get("mode", "main")]
+            seed, modes, htier = case.get("seed", ck.seed), [case.get("mode", "main")], case.get("tier", tier)
             if "line" in case or case.get("key") == PROV_KEY and os.path.exists(case.get("trace", "")):
                 # a kept rejected prefix: re-validate exactly that
                 ok, line = _validate(ck, case["trace"], "c16_replay")
@@ -134,10 +138,11 @@ def run(tier, replay=None):
     # --- TV + direct decision ------------------------------------------------------------------------
     total_events = total_reads = accepted = 0
     classes = {}
+    traces = []
     for mode in modes:
         trace = os.path.join(WORK, f"c16_{mode}.ndjson")
         results = os.path.join(WORK, f"c16_{mode}.results")
-        out = harness(binp, ["c16", trace, results, str(seed), tier, mode], timeout=7200)
+        out = harness(binp, ["c16", trace, results, str(seed), htier, mode], timeout=7200)
         summ = json.loads(out.strip().splitlines()[-1])
         if summ["reads"] < 200 or summ["ok_reads"] < 50 or summ["reasked"] < 50 or summ["replay_checked"] < 50:
             raise ToolError(f"c16 {mode}: vacuous run {summ['reads']}/{summ['ok_reads']}/{summ['reasked']}/{summ['replay_checked']}")
@@ -156,12 +161,28 @@ def run(tier, replay=None):
                     g.write(line)
             ck.violation(v["key"], v["detail"], {"seed": seed, "tier": tier, "mode": mode, "key": v["key"],
                                                  "request": v["request"], "trace": keep})
-        accepted += _tv(ck, trace, f"c16_{mode}", seed, tier, mode)
+        traces.append((mode, trace))
         if mode == "main":
             with open(trace) as f:
                 evs = [json.loads(next(f)) for _ in range(12)]
             ck.sample({"trace_head": [e for e in evs if e["event"] != "observe"][:4]})
             ck.sample({"observe_event": next(e for e in evs if e["event"] == "observe")})
+
+    # one TLC run over the concatenated traces (runs are separated by `reset` events); only if that is
+    # rejected are the traces validated separately, with triage of the rejected event
+    if len(traces) > 1:
+        joined = os.path.join(WORK, "c16_all.ndjson")
+        with open(joined, "w") as g:
+            for _, t in traces:
+                g.write(open(t).read())
+        for _, t in traces:
+            _collect_nontrivial(read_ndjson(t))
+        ok, _line = _validate(ck, joined, "c16_all")
+        if ok:
+            accepted += sum(1 for _ in open(joined))
+            traces = []
+    for mode, trace in traces:
+        accepted += _tv(ck, trace, f"c16_{mode}", seed, tier, mode)
 
     if mc_future is not None:
         res = mc_future.result()
@@ -178,7 +199,13 @@ def run(tier, replay=None):
                 "obs:CB/head:InvalidTick", "obs:CB/head:InvalidWorldline", "obs:QV/query:UnsupportedQuery",
                 "obs:QV/query:ContractQueryObserverFailed", "obs:CB/head:BudgetExceeded", "optic:wl:head:ok/commit",
                 "optic:wl:head:MissingWitness", "optic:wl:head:BudgetExceeded", "optic:att:attb:AttachmentDescentRequired"]
+        need += ["posture:Worldline", "posture:StrandHistorical"]
+        if tier == "thorough":
+            need += ["posture:StrandAtAnchor", "posture:StrandParentAdvancedDisjoint", "posture:StrandRevalidationRequired",
+                     "optic:wl:head:ok/cptail", "optic:wl:head:LiveTailRequiresReduction"]
         missing = [c for c in need if c not in classes]
+        if not replay and not any(c.startswith("posture:Strand") and c != "posture:StrandHistorical" for c in classes):
+            missing.append("posture:<live strand frontier>")
         if missing and not replay:
             raise ToolError(f"request alphabet not covered: {missing}")
         ck.cov["result_classes"] = len(classes)
